@@ -4,7 +4,7 @@
    for d >= 3 beyond simplices and boxes (no volume theory for polytopes in the installed libraries). *)
 From Coq Require Import Reals QArith Qabs Qminmax List Bool Arith.
 From DV Require Import Base.QVec Run.Verdict Model.Bary Model.Range Model.Sampling Model.Scaling Model.Metrics
-                       Proofs.MetricsP Proofs.MetricsFast Proofs.JsR.
+                       Proofs.MetricsP Proofs.MetricsFast Proofs.FractionP Proofs.JsR.
 Import ListNotations.
 Open Scope Q_scope.
 
@@ -45,6 +45,31 @@ Print Assumptions gamut_le_superset.
 Theorem executable_model_is_spec : forall c, model_fast c == model c.
 Proof. exact model_fast_eq. Qed.
 Print Assumptions executable_model_is_spec.
+
+(* ---- the estimator's fractional gamut in absolute capture ---- *)
+(* the system's capture points are non-negative combinations (rows of S R) of the perfect system's points (rows of R): after
+   L1-normalisation and the linear barycentric reduction they are convex combinations, so the width fraction is at most 1
+   for EVERY direction set U, every non-negative S and R *)
+Theorem width_is_monotone_under_convex_combinations : forall (X Y : mat) (n : nat) (U : mat), X <> [] -> U <> [] -> rect n Y ->
+  Forall (fun u => length u = n) U -> Forall (convex_of Y n) X -> mean_width_U X U <= mean_width_U Y U.
+Proof. exact mean_width_convex. Qed.
+Print Assumptions width_is_monotone_under_convex_combinations.
+Theorem estimator_fraction_at_most_one : forall (A : mat) (n : nat) (U S R : mat), rect (n - 1) A -> length A = n ->
+  rect n R -> rect (length R) S -> U <> [] -> Forall (fun u => length u = (n - 1)%nat) U ->
+  Forall (Forall (fun a => 0 <= a)) S -> Forall (Forall (fun a => 0 <= a)) R ->
+  reduce_cloud A n false (matmul S R n) <> [] ->
+  gamut_width A n false true U (matmul S R n) <= gamut_width A n false true U R.
+Proof. exact fraction_le_one. Qed.
+Print Assumptions estimator_fraction_at_most_one.
+(* (C) a passing verdict on ReceptorEstimator.compute_gamut(relative=False, fraction=True): the returned value is within the tolerance of
+   the specification value for the exact capture points S R, it is positive, and the specification value is at most 1 *)
+Theorem estimator_fraction_run : forall c : fcase, fverdict c = true ->
+  rect (f_m c - 1) (f_A c) -> length (f_A c) = f_m c -> Forall (fun u => length u = (f_m c - 1)%nat) (f_U c) ->
+  0 < gamut_width (f_A c) (f_m c) false true (f_U c) (f_R c) ->
+  let spec := gamut_width (f_A c) (f_m c) false true (f_U c) (f_X c) / gamut_width (f_A c) (f_m c) false true (f_U c) (f_R c) in
+  Qabs (spec - f_impl c) <= f_tol c + f_tol c * Qabs spec /\ 0 < f_impl c /\ spec <= 1.
+Proof. exact fverdict_sound. Qed.
+Print Assumptions estimator_fraction_run.
 
 (* ---- Jensen-Shannon divergence (over R) ---- *)
 Theorem js_symmetric : forall P Q, length P = length Q -> js P Q = js Q P.
